@@ -779,6 +779,34 @@ def sdvrp_delivery_law(ctx: Ctx):
     ok = ok_d and ok_dem and ok_use and bool(ok_init)
     ctx.ob("C06.q", "SDVRPEnv.checker:delivery-law", ok, sl.where, why + f"; replay starts from cat((-capacity, demand)): {bool(ok_init)}",
            construct="SDVRPEnv.check_solution_validity:delivery-law")
+    # the final `no demand left` assertion ranges over the CUSTOMER columns: column 0 of the replayed table is the depot's
+    # bookkeeping entry, -capacity until the first stop at the depot -- an instance served in one route never stops there (F53)
+    finals = []
+    for e in sl.events("assert"):
+        d = e.data
+        if not isinstance(d, vg.S) or not any(n.op == "loop" and nf.strip(n.args[0]) is nf.strip(dem.args[1]) or (n.op == "loop" and n.id == getattr(dem, "id", None)) for n in vg.walk(d)):
+            continue
+        x = nf.strip(d, True)
+        while (x.op == "meth" and x.args[1] == "all") or nf._fn(x) == "torch.all":
+            x = nf.strip(x.args[0] if x.op == "meth" else x.args[1], True)
+        r = nf._cmp_raw(x)
+        if r is None or r[1] != "==" or not vg.is_const(r[2], 0):
+            continue
+        lhs = nf.strip(r[0])
+        finals.append(lhs)
+    okf, whyf = False, "final `demands == 0` assertion on the replayed table not found"
+    if len(finals) == 1:
+        lhs = finals[0]
+        cust_only = False
+        if lhs.op == "sub":
+            idx = lhs.args[1].args if lhs.args[1].op == "tuple" else (lhs.args[1],)
+            last = idx[-1]
+            cust_only = isinstance(last, vg.S) and last.op == "slice" and vg.is_const(last.args[0], 1) and vg.is_none(last.args[1]) and vg.is_none(last.args[2]) and \
+                all(c_.op == "ellipsis" or (c_.op == "slice" and all(vg.is_none(y) for y in c_.args)) for c_ in idx[:-1])
+        okf = cust_only
+        whyf = f"final assertion compares {vg.show(lhs, 3)[:60]} with 0: customer columns only -- {cust_only}" + \
+            ("" if cust_only else "; the depot column is -capacity unless the depot was visited, so a complete one-route episode is rejected")
+    ctx.ob("C06.q", "SDVRPEnv.checker:no-demand-left-over-customers", okf, sl.where, whyf, construct="SDVRPEnv.check_solution_validity:final-assert-columns")
 
 
 def single_tour(ctx: Ctx):
